@@ -62,6 +62,8 @@ type c25StepOut struct {
 	Ok     bool              `json:"ok"`
 	Stored map[string]string `json:"stored"`
 	Names  []string          `json:"names,omitempty"` // all stored user names (after setuser / deluser steps)
+	// setuser: did SetUser store a new bcrypt credential? (it must not for passwords over 72 bytes: HashPassword fails)
+	CredSet bool `json:"credset"`
 }
 
 type c25Out struct {
@@ -216,6 +218,8 @@ func TestVerifC25(t *testing.T) {
 
 				var err error
 
+				credSet := false
+
 				if st.Op == "setuser" {
 					perms := []any{}
 					for _, p := range st.Perms {
@@ -226,7 +230,10 @@ func TestVerifC25(t *testing.T) {
 						SetAlways("name", name).
 						SetAlways("password", c25Unhex(st.Pw)).
 						SetAlways("permissions", perms)
+					before, existed := c25Stored(svc, strings.ToLower(name))
 					_, err = SetUser(syms, data.NewList(args))
+					after, _ := c25Stored(svc, strings.ToLower(name))
+					credSet = IsBcryptHash(after) && (!existed || after != before)
 
 					// from now on "same" means: whatever SetUser stored (a cost-12 bcrypt hash)
 					if pw, found := c25Stored(svc, strings.ToLower(name)); found {
@@ -237,7 +244,7 @@ func TestVerifC25(t *testing.T) {
 					delete(seeded, strings.ToLower(name))
 				}
 
-				o.Steps = append(o.Steps, c25StepOut{Ok: err == nil, Stored: c25Classes(svc, seeded), Names: c25Names(svc)})
+				o.Steps = append(o.Steps, c25StepOut{Ok: err == nil, Stored: c25Classes(svc, seeded), Names: c25Names(svc), CredSet: credSet})
 
 				continue
 			}
